@@ -373,6 +373,20 @@ fn vec_like(report: &Report, depth: usize) {
     if got != [Some(5), Some(6), None, None, None] {
         bad.push(("FallibleIteratorReadWords | not fused after the first end-of-data".into(), format!("{:?}", got)));
     }
+    // (the "infallible" adapter can only be built over an iterator of Results, which it then hands out as its words -
+    // DESIGN.md 6.5 - but the fused-end obligation of the contract holds for it all the same)
+    let mut it = InfallibleIteratorReadWords::new::<_, u8, ()>(Flaky(0));
+    let got: Vec<Option<Result<u8, ()>>> = (0..5).map(|_| ReadWords::<Result<u8, ()>, Queue>::read(&mut it).unwrap_or(None)).collect();
+    total += 5;
+    if got != [Some(Ok(5)), Some(Ok(6)), None, None, None] {
+        bad.push(("InfallibleIteratorReadWords | not fused after the first end-of-data".into(), format!("{:?}", got)));
+    }
+    let mut it = InfallibleIteratorReadWords::new::<_, u8, ()>(Flaky(0));
+    let got: Vec<Option<Result<u8, ()>>> = (0..5).map(|_| ReadWords::<Result<u8, ()>, Stack>::read(&mut it).unwrap_or(None)).collect();
+    total += 5;
+    if got != [Some(Ok(5)), Some(Ok(6)), None, None, None] {
+        bad.push(("InfallibleIteratorReadWords | not fused after the first end-of-data".into(), format!("stack semantics: {:?}", got)));
+    }
     let data = [1u8, 2, 3];
     let mut it = FallibleIteratorReadWords::new(data.iter().map(|&w| Ok::<u8, ()>(w)));
     for k in 0..=3usize {
